@@ -1,7 +1,10 @@
 (** C26 — Structured topologies follow their routing algorithms.
     Only statements; proofs live in SGV.Routing.TorusProofs.  Models: SGV.Routing.Torus (TorusZone::get_local_route,
-    create_torus_links, StarZone::get_local_route).  Fat-tree and dragonfly: see checks/C26.py META (correspondence only). *)
-From SGV Require Import Base.Tactics Routing.Torus Routing.TorusProofs.
+    create_torus_links, StarZone::get_local_route); SGV.Routing.FatTree (FatTreeZone: construction of nodes/links and
+    get_local_route), proofs in SGV.Routing.FatTreeProofs; SGV.Routing.Dragonfly (DragonflyZone: rankId_to_coords, the
+    cells filled by generate_links, get_local_route), proofs in SGV.Routing.DragonflyProofs. *)
+From SGV Require Import Base.Tactics Routing.Torus Routing.TorusProofs Routing.FatTree Routing.FatTreeProofs.
+From SGV Require Import Routing.Dragonfly Routing.DragonflyProofs.
 From Coq Require Import Sorted.
 Local Open Scope Z_scope.
 
@@ -87,6 +90,170 @@ Proof.
   destruct (add_links_dedup down seen (dedup [] up)) as [B _]. exact B.
 Qed.
 Print Assumptions C26_star_first_occurrences.
+
+(* ------------------------------------------------------------------------------------------------ fat-tree *)
+
+(* FatTreeZone::get_local_route, for ALL parameter vectors accepted by check_topology (any number of levels, any
+   down/up/link counts >= 1) and all pairs of compute nodes, over ANY tables with the property TabOK (every port of a
+   node leads, by a link whose two ends are these nodes, to the node one level up/down whose label differs only at that
+   level's index, by the port's residue; compute nodes are the first prod(down) cells with pairwise different labels):
+   the hops are k hops up followed by k hops down - never up after down -, k = the least level >= 1 from which the
+   labels of source and destination agree; consecutive hops are chained, every hop changes the level by exactly one
+   and its link joins its two ends; the walk starts at the source and ends at the destination; the turning node has
+   both ends in its sub-tree (is_in_sub_tree). *)
+Theorem C26_fattree_up_down : forall p tb, ft_valid p = true -> TabOK p tb ->
+  forall s t, (s < Z.to_nat (prodz (ft_cs p)))%nat -> (t < Z.to_nat (prodz (ft_cs p)))%nat ->
+  let k := nca_level (ft_levels p) (fn_label (node tb s)) (fn_label (node tb t)) in
+  exists ups top downs,
+    ft_hops p tb s t = ups ++ downs /\ ft_chain tb true s ups top /\ ft_chain tb false top downs t /\
+    length ups = k /\ length downs = k /\ fn_level (node tb top) = k /\ (1 <= k <= ft_levels p)%nat /\
+    in_sub_tree (ft_levels p) (node tb top) (node tb s) = true /\
+    in_sub_tree (ft_levels p) (node tb top) (node tb t) = true.
+Proof. exact ft_up_down. Qed.
+Print Assumptions C26_fattree_up_down.
+
+(* k is the level of the NEAREST common ancestors: nothing below level k has both ends in its sub-tree *)
+Theorem C26_fattree_nca_nearest : forall p tb, ft_valid p = true -> TabOK p tb ->
+  forall s t, (s < Z.to_nat (prodz (ft_cs p)))%nat -> (t < Z.to_nat (prodz (ft_cs p)))%nat ->
+  forall w : fnode, in_sub_tree (ft_levels p) w (node tb s) = true -> in_sub_tree (ft_levels p) w (node tb t) = true ->
+  (nca_level (ft_levels p) (fn_label (node tb s)) (fn_label (node tb t)) <= fn_level w)%nat.
+Proof. exact ft_nca_nearest. Qed.
+Print Assumptions C26_fattree_nca_nearest.
+
+(* the boolean function tab_ok decides TabOK: it is run by the extracted model on the tables of every tied instance *)
+Theorem C26_fattree_tables_checker_sound : forall p tb, tab_ok p tb = true -> TabOK p tb.
+Proof. exact tab_ok_sound. Qed.
+Print Assumptions C26_fattree_tables_checker_sound.
+
+(* the same for the tables that the modelled construction (add_processing_node, generate_switches, generate_labels,
+   connect_node_to_parents with are_related/get_level_position, add_internal_link) builds.  PARTIAL: the side condition
+   [tab_ok p (ft_build p) = true] is computed (verified checker above) for every instance the check ties, and it is NOT
+   proved for all parameter vectors (missing: the odometer of generate_labels enumerates the mixed-radix digit vectors,
+   and the are_related scan finds exactly the nodes whose label differs at the level's index); the identity of the
+   links (names, parallel cable chosen) is compared with the real code by the correspondence. *)
+Theorem C26_fattree_up_down_built_partial : forall p, ft_valid p = true -> tab_ok p (ft_build p) = true ->
+  forall s t, (s < Z.to_nat (prodz (ft_cs p)))%nat -> (t < Z.to_nat (prodz (ft_cs p)))%nat ->
+  let tb := ft_build p in
+  let k := nca_level (ft_levels p) (fn_label (node tb s)) (fn_label (node tb t)) in
+  exists ups top downs,
+    ft_hops p tb s t = ups ++ downs /\ ft_chain tb true s ups top /\ ft_chain tb false top downs t /\
+    length ups = k /\ length downs = k /\ fn_level (node tb top) = k /\ (1 <= k <= ft_levels p)%nat /\
+    in_sub_tree (ft_levels p) (node tb top) (node tb s) = true /\
+    in_sub_tree (ft_levels p) (node tb top) (node tb t) = true.
+Proof. intros p V H s t Hs Ht. exact (ft_up_down p (ft_build p) V (tab_ok_sound _ _ H) s t Hs Ht). Qed.
+Print Assumptions C26_fattree_up_down_built_partial.
+
+(* loopback alone when src = dst and one is configured; otherwise the links of the hops, with the limiter of every
+   node left (before an up link, after a down link) and of the last node reached, and nothing else *)
+Theorem C26_fattree_loopback_limiter : forall p tb lb s t,
+  ft_route p tb true false s s = [FLoop s] /\ ft_route p tb true true s s = [FLoop s] /\
+  ((s =? t)%nat && lb = false ->
+     let hs := ft_hops p tb s t in
+     ft_route p tb lb false s t = map hop_flk hs /\
+     filter is_flim (ft_route p tb lb true s t) = map FLim (map fh_from hs ++ [last (map fh_to hs) s]) /\
+     filter (fun l => negb (is_flim l)) (ft_route p tb lb true s t) = ft_route p tb lb false s t).
+Proof.
+  intros. split; [apply ft_route_loopback | split; [apply ft_route_loopback|]]. intros H hs.
+  split; [now apply ft_route_no_limiter | now apply ft_route_limiters].
+Qed.
+Print Assumptions C26_fattree_loopback_limiter.
+
+Example C26_fattree_nonvacuous :
+  let p := mkftp [2; 3; 2] [2; 1; 2] [1; 3; 2] in
+  ft_valid p = true /\ tab_ok p (ft_build p) = true /\
+  nca_level 3 (fn_label (node (ft_build p) 1)) (fn_label (node (ft_build p) 10)) = 3%nat /\
+  map fh_up (ft_hops p (ft_build p) 1 10) = [true; true; true; false; false; false] /\
+  last (map fh_to (ft_hops p (ft_build p) 1 10)) 0%nat = 10%nat /\
+  nca_level 3 (fn_label (node (ft_build p) 4)) (fn_label (node (ft_build p) 5)) = 1%nat /\
+  map fh_up (ft_hops p (ft_build p) 4 5) = [true; false].
+Proof. vm_compute. repeat split; reflexivity. Qed.
+
+(* ------------------------------------------------------------------------------------------------ dragonfly *)
+
+(* rankId_to_coords is a bijection between the ranks 0 .. G*C*B*n-1 and the coordinates (group, chassis, blade, node)
+   within their ranges; its inverse is the row-major numbering.  For ALL parameters >= 1. *)
+Theorem C26_dragonfly_coords_bijection : forall p, df_valid p = true ->
+  (forall r, 0 <= r < df_g p * df_c p * df_b p * df_n p ->
+     coords_in_range p (rank_to_coords p r) /\ coords_to_rank p (rank_to_coords p r) = r) /\
+  (forall c, coords_in_range p c ->
+     0 <= coords_to_rank p c < df_g p * df_c p * df_b p * df_n p /\ rank_to_coords p (coords_to_rank p c) = c) /\
+  (forall r, 0 <= dr_chassis r < df_c p -> 0 <= dr_blade r < df_b p -> router_unflat p (router_flat p r) = r).
+Proof. intros p V. split; [exact (df_rank_coords p V) | split; [exact (df_coords_rank p V) | exact (df_router_flat p V)]]. Qed.
+Print Assumptions C26_dragonfly_coords_bijection.
+
+(* get_local_route (as repaired by b10f387707): the routers' part of the route is a WALK from the router of the source
+   to the router of the destination - every hop leaves the router reached so far through a link found in that router's
+   table, which leads to the router the code goes on from -, for all parameters >= 1 and all ranks.
+   PARTIAL: side condition [df_g p <= df_b p] (no more groups than blades per chassis).  Outside it the C++ looks for the
+   router holding the blue link to group g at blade g of chassis 0 and indexes green_links_ out of bounds (recorded
+   finding dragonfly-groups-exceed-blades); the model does not describe the code there. *)
+Theorem C26_dragonfly_hierarchy_partial : forall p s t, df_valid p = true -> df_g p <= df_b p ->
+  0 <= s < df_g p * df_c p * df_b p * df_n p -> 0 <= t < df_g p * df_c p * df_b p * df_n p ->
+  df_walk_end p (router_of (rank_to_coords p s)) (df_hops true p s t) = Some (router_of (rank_to_coords p t)).
+Proof. exact df_hops_walk. Qed.
+Print Assumptions C26_dragonfly_hierarchy_partial.
+
+(* the kinds of the hops (1 green: inside a chassis, 2 black: inside a group, 3 blue: between groups) follow the
+   documented hierarchy and are minimal inside a group: one green hop iff the blades differ then one black hop iff the
+   chassis differ; between groups: (green, black as needed to reach blade [destination group] of chassis 0), the blue
+   link, then the same inside the destination group from blade [source group] of chassis 0. *)
+Theorem C26_dragonfly_hop_kinds_partial : forall p ms tc, df_valid p = true -> df_g p <= df_b p ->
+  coords_in_range p ms -> coords_in_range p tc ->
+  hop_kinds (df_hops_c true p ms tc) =
+  if dr_eqb (router_of ms) (router_of tc) then []
+  else if dc_group tc =? dc_group ms
+       then (if dc_blade tc =? dc_blade ms then [] else [1]) ++ (if dc_chassis tc =? dc_chassis ms then [] else [2])
+       else (if dc_blade ms =? dc_group tc then [] else [1]) ++ (if dc_chassis ms =? 0 then [] else [2]) ++ [3] ++
+            (if dc_blade tc =? dc_group ms then [] else [1]) ++ (if dc_chassis tc =? 0 then [] else [2]).
+Proof. exact df_hops_kinds. Qed.
+Print Assumptions C26_dragonfly_hop_kinds_partial.
+
+(* what a link joins: green = two blades of one chassis, black = the same blade of two chassis of one group, blue = two groups *)
+Theorem C26_dragonfly_link_ends : forall p l a b, link_ends p l = Some (a, b) ->
+  match l with
+  | DGreen _ _ j k _ => dr_group a = dr_group b /\ dr_chassis a = dr_chassis b /\ dr_blade a = j /\ dr_blade b = k
+  | DBlack _ j k _ _ => dr_group a = dr_group b /\ dr_blade a = dr_blade b /\ dr_chassis a = j /\ dr_chassis b = k
+  | DBlue i j _ => dr_group a = i /\ dr_group b = j
+  | _ => False
+  end.
+Proof. exact link_ends_hierarchy. Qed.
+Print Assumptions C26_dragonfly_link_ends.
+
+(* the code before the repair: 1 group, 3 chassis, 2 blades, chassis 1 blade 0 -> chassis 1 blade 1 is not a walk (a
+   second, black, link taken from a router of chassis 0 that the route never reached); replayed on the real code *)
+Theorem C26_dragonfly_pinned_refuted : exists p s t, df_valid p = true /\ df_g p <= df_b p /\
+  0 <= s < df_g p * df_c p * df_b p * df_n p /\ 0 <= t < df_g p * df_c p * df_b p * df_n p /\
+  df_walk_end p (router_of (rank_to_coords p s)) (df_hops false p s t) = None /\ length (df_hops false p s t) = 2%nat /\
+  length (df_hops true p s t) = 1%nat.
+Proof. exact df_pinned_refuted. Qed.
+Print Assumptions C26_dragonfly_pinned_refuted.
+
+(* loopback alone when src = dst and one is configured; otherwise: [limiter of the source] local link up, the hops
+   (limiter of the router left before a green/black link, after a blue one), [limiter of the last router] local link
+   down [limiter of the destination]; limiters exactly when configured *)
+Theorem C26_dragonfly_loopback_limiter : forall keep p lb s t,
+  df_route keep p true false s s = [DLoop s] /\ df_route keep p true true s s = [DLoop s] /\
+  ((s =? t) && lb = false ->
+     df_route keep p lb false s t =
+       DLocal (router_of (rank_to_coords p s)) (dc_node (rank_to_coords p s)) true :: map snd (df_hops keep p s t) ++
+       [DLocal (router_of (rank_to_coords p t)) (dc_node (rank_to_coords p t)) false] /\
+     filter is_dlim (df_route keep p lb true s t) =
+       DLimNode s :: map (fun h => DLimRouter (fst h)) (df_hops keep p s t) ++
+       [DLimRouter (router_of (rank_to_coords p t)); DLimNode t] /\
+     filter (fun l => negb (is_dlim l)) (df_route keep p lb true s t) = df_route keep p lb false s t).
+Proof.
+  intros. split; [apply df_route_loopback | split; [apply df_route_loopback|]]. intros H.
+  split; [now apply df_route_no_limiter | apply df_route_limiters; [exact H | apply df_hops_not_lim]].
+Qed.
+Print Assumptions C26_dragonfly_loopback_limiter.
+
+Example C26_dragonfly_nonvacuous :
+  let p := mkdfp 3 2 4 2 in
+  df_valid p = true /\ df_g p <= df_b p /\ coords_in_range p (rank_to_coords p 13) /\ coords_in_range p (rank_to_coords p 45) /\
+  rank_to_coords p 13 = mkdc 0 1 2 1 /\ rank_to_coords p 45 = mkdc 2 1 2 1 /\
+  hop_kinds (df_hops true p 13 45) = [2; 3; 1; 2] /\
+  df_walk_end p (mkdr 0 1 2) (df_hops true p 13 45) = Some (mkdr 2 1 2).
+Proof. vm_compute. repeat split; congruence. Qed.
 
 Example C26_nonvacuous :
   posl [3; 2; 4] /\ 0 <= 1 < prodz [3; 2; 4] /\ 0 <= 21 < prodz [3; 2; 4] /\
